@@ -190,9 +190,12 @@ where
             let enc_r = &proof.enc_r;
             let enc_x_r = &proof.enc_x_r;
 
-            let r = rsa_decrypt_with_label(enc_r, label, rsa_privkey)?;
+            // A slot that cannot be decrypted or decoded is skipped. We expect at least one of the proofs to be valid, assuming the proofs are verified.
+            let r = match rsa_decrypt_with_label(enc_r, label, rsa_privkey) {
+                Ok(r) => r,
+                Err(_) => continue,
+            };
 
-            // If r is not a valid scalar, continue. We expect at least one of the proofs to be valid, assuming the proofs are verified.
             let r = if let Some(r) = decode_scalar::<G::Scalar>(&r) {
                 r
             } else {
@@ -200,7 +203,10 @@ where
             };
 
             let x_plus_r =
-                rsa_decrypt_with_label(enc_x_r, label, rsa_privkey)?;
+                match rsa_decrypt_with_label(enc_x_r, label, rsa_privkey) {
+                    Ok(v) => v,
+                    Err(_) => continue,
+                };
 
             let x_plus_r = if let Some(x_plus_r) =
                 decode_scalar::<G::Scalar>(&x_plus_r)
